@@ -9,7 +9,7 @@ ENGINES = {
     "bounds": dict(src=["harness/bounds.c", "harness/aesfam.c"]),
     "params": dict(src=["harness/params.c", "harness/aesfam.c", "harness/hashalgs.c"]),
     "fips": dict(src=["harness/fips.c", "harness/aesfam.c", "harness/hashalgs.c"], ldflags=["-Wl,--wrap=_aes_self_tests", "-Wl,--wrap=_sha_self_tests"]),
-    "fipssched": dict(src=["harness/fipssched.c"], ldflags=["-Wl,--wrap=_aes_self_tests", "-Wl,--wrap=_sha_self_tests"]),
+    "fipssched": dict(src=["harness/fipssched.c"], ldflags=["-Wl,--wrap=_aes_self_tests", "-Wl,--wrap=_sha_self_tests", "-Wl,--wrap=usleep"]),
     "threads": dict(src=["harness/threads.c", "harness/aesfam.c", "harness/hashalgs.c"]),
     "dispatch": dict(src=["harness/dispatch.c", "harness/aesfam.c", "harness/hashalgs.c"]),
     "trampeng": dict(src=["harness/trampeng.c", "harness/tramp.c", "harness/tramp.S", "harness/aesfam.c", "harness/hashalgs.c"], ldflags=["-rdynamic"]),
@@ -193,6 +193,17 @@ def mix_tasks(prop, tier, rounds_q=1, rounds_t=6):
             for alg in HASH_ALGS for f in fams[alg]]
 
 
+def noarch_hash_tasks(prop, inject, tier, extra=None, n_q=400, n_t=20000):
+    """the portable C configuration (make arch=noarch: *_base.c + *_base_aliases.c, files the x86 build never compiles): base code directly and through the isal_/legacy API"""
+    return [dict(engine="hashmb", variant="noarch", args=["--prop", prop, "--alg", alg, "--fam", "base", "--route", "fam,isal,legacy", "--inject", inject, "--noarch", 1,
+                                                          "--from", 0, "--count", n_q if tier == "quick" else n_t] + (extra or [])) for alg in HASH_ALGS]
+
+
+def noarch_mh_tasks(prop, whats, tier, n_q=600, n_t=20000):
+    return [dict(engine="mhroll", variant="noarch", args=["--prop", prop, "--what", w, "--fam", "base", "--route", "fam,isal,legacy", "--noarch", 1, "--from", 0, "--count", n_q if tier == "quick" else n_t])
+            for w in whats]
+
+
 def lanes_tasks(prop, tier):
     """every lane of a manager holds >= 2^24 blocks at the same time (thorough: two rounds)"""
     fams = dict(sha1=["sse", "avx", "avx2", "avx512", "sse_ni", "avx512_ni"], sha256=["sse", "avx", "avx2", "avx512", "sse_ni", "avx512_ni"],
@@ -267,6 +278,12 @@ def c17_tasks(tier):
     w("fips", "--mode", "stress", "--pool", 64, "--from", 0, "--count", 5000 if q else 400000, "--budget-s", 60 if q else 900, "--watchdog", 3000)
     w("fips", "--mode", "stress", "--pool", 4, "--from", 7000000, "--count", 3000, "--stall-s", 6 if q else 12, "--budget-s", 120, "--watchdog", 3000)
     w("fips-tsan", "--mode", "stress", "--pool", 8, "--from", 0, "--count", 5000 if q else 300000, "--budget-s", 60 if q else 900, "--watchdog", 3000)
+    # the portable self-test driver (fips/self_tests_generic.c: C11 atomics, usleep in the wait loop), make arch=noarch FIPS_MODE=y
+    for (f, c) in split(3000 if q else 300000, 4 if q else 8):
+        w("fips-noarch", "--noarch", 1, "--mode", "sched", "--from", f, "--count", c, "--watchdog", 3000 if q else 20000, timeout=3600 if q else 21000)
+    w("fips-noarch", "--noarch", 1, "--mode", "stress", "--pool", 16, "--from", 0, "--count", 100000 if q else 5000000, "--budget-s", 40 if q else 600, "--watchdog", 3000)
+    w("fips-noarch", "--noarch", 1, "--mode", "stress", "--pool", 4, "--from", 7000000, "--count", 3000, "--stall-s", 6 if q else 12, "--budget-s", 120, "--watchdog", 3000)
+    w("fips-noarch-tsan", "--noarch", 1, "--mode", "stress", "--pool", 8, "--from", 0, "--count", 3000 if q else 200000, "--budget-s", 40 if q else 600, "--watchdog", 3000)
     return t
 
 
@@ -390,7 +407,7 @@ CHECKS = {
         rule=HIST_RULE + "; evaluations = completed jobs whose digest was compared with the reference hash of the model's byte stream; in addition, per SIMD (algorithm, family), a manager whose lanes all hold "
              "single segments of at least 2^24 blocks at the same time (distinct lengths, OpenSSL streaming oracle), and the lane-magnitude probe described under C06",
         assumptions=TRUST,
-        tasks=lambda tier: hash_tasks("C01", 1500, 60000, 5, variants=("plain", "asan"))(tier) + pairs_tasks("C01") + lanes_tasks("C01", tier) + (mix_tasks("C01", tier) if tier == "thorough" else []),
+        tasks=lambda tier: hash_tasks("C01", 1500, 60000, 5, variants=("plain", "asan"))(tier) + pairs_tasks("C01") + lanes_tasks("C01", tier) + noarch_hash_tasks("C01", 5, tier) + (mix_tasks("C01", tier) if tier == "thorough" else []),
     ),
     "C06": dict(
         technique='online history checker: sequential job-accounting model at the call boundary + manager count/owner invariants, lane-magnitude probe, AddressSanitizer build',
@@ -399,14 +416,14 @@ CHECKS = {
              "or filled but for one lane and flushed (flush path) with one job whose single submit is 2^31..2^32-1 bytes, a unique shortest job and distinct medium ones (the packed length words inside the "
              "managers reach their sign bit); whatever is handed back first must be complete with the reference digest (exhaustive over the pairs; the manager is then abandoned). thorough also completes such mixed-size sets",
         assumptions=TRUST,
-        tasks=lambda tier: hash_tasks("C06", 1500, 60000, 8, variants=("plain", "asan"))(tier) + pairs_tasks("C06") + (mix_tasks("C06", tier) if tier == "thorough" else []),
+        tasks=lambda tier: hash_tasks("C06", 1500, 60000, 8, variants=("plain", "asan"))(tier) + pairs_tasks("C06") + noarch_hash_tasks("C06", 8, tier) + (mix_tasks("C06", tier) if tier == "thorough" else []),
     ),
     "C11": dict(
         technique='byte-image comparison (manager, all contexts, buffers) across injected invalid submits + job model + digest oracle over the rest of the history',
         level="exploration", evaluations="rejects", must_observe=["rejects", "rejects_invalid_flags", "rejects_already_processing", "rejects_already_completed", "completes"],
         rule=HIST_RULE + "; evaluations = injected invalid submits, each compared byte-for-byte (manager, all contexts, buffers) against a snapshot taken just before the call",
         assumptions=TRUST,
-        tasks=hash_tasks("C11", 1500, 60000, 22, variants=("plain", "asan")),
+        tasks=lambda tier: hash_tasks("C11", 1500, 60000, 22, variants=("plain", "asan"))(tier) + noarch_hash_tasks("C11", 22, tier),
     ),
     "C02": dict(
         technique='runtime differential oracle: SP 800-38D reference (bitwise GHASH) / OpenSSL vs every family and route, every length 0..1100 plus boundary and 512 MiB messages',
@@ -465,7 +482,7 @@ CHECKS = {
               "one stream of 2^29+100 bytes per family (bit length beyond 32 bits; thorough also 2^31+53 and 2^32-77) against an oracle built on OpenSSL's block transforms; "
               "distinct_nontrivial = distinct (algorithm, family, carried-partial class, piece class) and (algorithm, family, route, length class)"),
         assumptions=TRUST + ["multi-hash reference built from the statement of C05 on top of the reference SHA-1/SHA-256 compression functions; the [word][segment] interim-digest layout hashed by the outer hash is the library's documented on-disk format"],
-        tasks=lambda tier: mh_tasks("C05", ["mh_sha1", "mh_sha256"], MH_FAMS, 2700, 40000)(tier)
+        tasks=lambda tier: mh_tasks("C05", ["mh_sha1", "mh_sha256"], MH_FAMS, 2700, 40000)(tier) + noarch_mh_tasks("C05", ["mh_sha1", "mh_sha256"], tier)
         + [dict(engine="mhroll", variant="plain", timeout=3000, args=["--prop", "C05", "--what", w, "--fam", f, "--from", 0, "--count", 1, "--watchdog", 2900]) for w in ("mh_sha1_huge", "mh_sha256_huge") for f in MH_FAMS],
     ),
     "C10": dict(
@@ -475,7 +492,7 @@ CHECKS = {
               "reference MurmurHash3_x64_128 (h1=h2=seed) of the whole stream; seeds 0, 1, 2^64-1 and random; stream lengths cover every value of len mod 16 and len mod 1024; "
               "one stream of 2^31+53 bytes per family (thorough also 2^29+100 and 2^32-77)"),
         assumptions=TRUST,
-        tasks=lambda tier: mh_tasks("C10", ["murmur"], MH_FAMS, 2700, 40000)(tier)
+        tasks=lambda tier: mh_tasks("C10", ["murmur"], MH_FAMS, 2700, 40000)(tier) + noarch_mh_tasks("C10", ["murmur"], tier)
         + [dict(engine="mhroll", variant="plain", timeout=3000, args=["--prop", "C10", "--what", "murmur_huge", "--fam", f, "--from", 0, "--count", 1, "--watchdog", 2900]) for f in MH_FAMS],
     ),
     "C09": dict(
@@ -488,7 +505,7 @@ CHECKS = {
               "the 256-entry table is compared with a pinned golden copy; mask_gen is checked for all shifts around all powers of two; the state memory is junk before init, in a quarter of the cases "
               "junk whose every word equals the requested window; per scan kernel two single run calls over more than 2^31 bytes of random data (hit just below / above 2^31) against an incremental model"),
         assumptions=TRUST + ["golden copy of the rolling-hash table taken from the pinned snapshot (the constant defines the on-disk chunking format)"],
-        tasks=lambda tier: mh_tasks("C09", ["rolling"], ["base", "00", "04"], 1500, 30000)(tier)
+        tasks=lambda tier: mh_tasks("C09", ["rolling"], ["base", "00", "04"], 1500, 30000)(tier) + noarch_mh_tasks("C09", ["rolling"], tier)
         + [dict(engine="mhroll", variant="plain", timeout=3000, args=["--prop", "C09", "--what", "rolling_huge", "--fam", f, "--from", 0, "--count", 1, "--watchdog", 2900]) for f in ("base", "00", "04")],
     ),
     "C08": dict(
@@ -556,7 +573,7 @@ CHECKS = {
               "In both tiers random histories on all 28 pairs x 3 routes additionally move an idle context's documented running total (and the model's) forward by whole blocks to just below a threshold, so the following segments cross it at every residue without hashing gigabytes (the expected digest is the reference hash of the submitted bytes padded with the adjusted total). Small random histories add the total_length check at every hand-back. "
               "distinct_nontrivial = distinct (family, threshold, running total mod 2 blocks, flags, above/below threshold)"),
         assumptions=TRUST + ["OpenSSL 3.0 EVP digests as oracle for multi-GiB streams"],
-        tasks=lambda tier: big_tasks(tier) + pairs_tasks("C15") + ([dict(engine="hashmb", variant="plain", timeout=7000, args=["--prop", "C15", "--mode", "big", "--alg", alg, "--fam", f, "--thr", "decay", "--watchdog", 6900])
+        tasks=lambda tier: big_tasks(tier) + pairs_tasks("C15") + noarch_hash_tasks("C15", 3, tier, extra=["--jump", 1]) + ([dict(engine="hashmb", variant="plain", timeout=7000, args=["--prop", "C15", "--mode", "big", "--alg", alg, "--fam", f, "--thr", "decay", "--watchdog", 6900])
                                                                       for alg, fl in (("sha1", ["sse", "avx", "avx2", "avx512", "sse_ni", "avx512_ni"]), ("sha256", ["sse", "avx", "avx2", "avx512", "sse_ni", "avx512_ni"]), ("sha512", ["sse", "avx", "avx2", "avx512"]),
                                                                                       ("md5", ["sse", "avx", "avx2", "avx512"]), ("sm3", ["avx2", "avx512"])) for f in fl] if tier == "thorough" else []),
     ),
@@ -588,7 +605,9 @@ CHECKS = {
               "published. The entry list is checked against nm of the FIPS build. distinct_nontrivial = distinct (entry, state, injection mode) and (xts entry, key-pair variant)"),
         assumptions=TRUST + ["crypto work is observed through resolution of re-armed dispatch slots (every approved algorithm reaches its kernels through a dispatched entry)"],
         tasks=lambda tier: [dict(engine="fips", variant="fips", args=["--prop", "C13", "--from", f, "--count", c]) for (f, c) in split(48 if tier == "quick" else 4000, 8 if tier == "quick" else 16)]
-        + [dict(engine="fips", variant="fips-noparam", args=["--prop", "C13", "--from", f, "--count", c]) for (f, c) in split(12 if tier == "quick" else 600, 4)],
+        + [dict(engine="fips", variant="fips-noparam", args=["--prop", "C13", "--from", f, "--count", c]) for (f, c) in split(12 if tier == "quick" else 600, 4)]
+        # the portable self-test driver (fips/self_tests_generic.c, make arch=noarch FIPS_MODE=y): AES group always a stub (no AES unit), SHA group real or stub
+        + [dict(engine="fips", variant="fips-noarch", args=["--prop", "C13", "--noarch", 1, "--from", f, "--count", c]) for (f, c) in split(24 if tier == "quick" else 1200, 4)],
         post=isal_cover_post, exhaustive_key="fips_calls", exhaustive_over="(isal_ entry point) x (self-test state) cells",
     ),
     "C17": dict(
